@@ -151,6 +151,8 @@ def evaluate(c, case, ns, fn, selfobj, args, ghosts=None, call=None):
         env['self'] = selfobj
     if case == 'contract':
         ens, rai, extra = c.get('ensures', {}), c.get('raises', {}), []
+        if call is not None and c.get('bounded_ensures'):
+            ens = dict(ens, **c['bounded_ensures'])      # clauses of the bounded stand-in only
     else:
         lem = c['lemmas'][case]
         ens, rai, extra = lem.get('ensures', {}), lem.get('raises', 'never'), lem.get('requires', [])
